@@ -13,13 +13,13 @@ import (
 
 // benignDrops: callees whose error/diagnostics result may be discarded, with the reason.
 var benignDrops = map[string]string{
-	"fmt.Fprintf":   "formatting into an in-memory buffer",
-	"fmt.Fprint":    "formatting into an in-memory buffer",
-	"fmt.Fprintln":  "formatting into an in-memory buffer",
-	"bytes.Buffer.WriteString": "bytes.Buffer writes cannot fail",
-	"bytes.Buffer.Write":       "bytes.Buffer writes cannot fail",
-	"bytes.Buffer.WriteByte":   "bytes.Buffer writes cannot fail",
-	"bytes.Buffer.WriteRune":   "bytes.Buffer writes cannot fail",
+	"fmt.Fprintf":                 "formatting into an in-memory buffer",
+	"fmt.Fprint":                  "formatting into an in-memory buffer",
+	"fmt.Fprintln":                "formatting into an in-memory buffer",
+	"bytes.Buffer.WriteString":    "bytes.Buffer writes cannot fail",
+	"bytes.Buffer.Write":          "bytes.Buffer writes cannot fail",
+	"bytes.Buffer.WriteByte":      "bytes.Buffer writes cannot fail",
+	"bytes.Buffer.WriteRune":      "bytes.Buffer writes cannot fail",
 	"strings.Builder.WriteString": "strings.Builder writes cannot fail",
 	"strings.Builder.WriteByte":   "strings.Builder writes cannot fail",
 	"strings.Builder.WriteRune":   "strings.Builder writes cannot fail",
@@ -32,7 +32,7 @@ var benignDrops = map[string]string{
 var benignDropsAt = map[string]string{
 	"(*profile/yaotl/hclsyntax.parser).parseExpressionTraversals|Havoc/pkg/profile/yaotl/hclsyntax.LiteralValueExpr.Value": "evaluating a literal node with a nil context cannot produce diagnostics (upstream HCL idiom)",
 	"(*profile/yaotl/hclsyntax.parser).parseExpressionTraversals|Havoc/pkg/profile/yaotl/hclsyntax.TemplateExpr.Value":     "guarded by IsStringLiteral(): a template that is a single string literal evaluates without diagnostics (upstream HCL idiom)",
-	"(*profile/yaotl/hclsyntax.SplatExpr).Value|resultTy":                                                                 "the same diagnostics were already collected while iterating (upstream comment); the value returned is unknown anyway",
+	"(*profile/yaotl/hclsyntax.SplatExpr).Value|resultTy":                                                                  "the same diagnostics were already collected while iterating (upstream comment); the value returned is unknown anyway",
 }
 
 func isErrOrDiags(t types.Type) bool {
